@@ -583,22 +583,27 @@ def gen_newreq_program(rng):
     k = rng.randint(2, 4)
     p.sources = list(range(k + 1))
     # task 0 = A: read r0; if r0 == 1 require B.   task 1 = B: requires C_1..C_k (directly or through a middle task).
-    p.tasks[0] = ('R', 0, 0, ('I', ('l', 2), ('Q', 1, rng.choice([0, 2]), ('T', ('a',))), ('T', ('k', 5))))
+    p.tasks[0] = ('R', 0, 0, ('I', ('l', 2), ('Q', 1, (0 if rng.random() < 0.85 else 2), ('T', ('a',))), ('T', ('k', 5))))
     tid = 2
     body = ('T', ('a',))
     cs = []
+    shared = k + 1 if rng.random() < 0.6 else None     # a source several dependencies of B read (a diamond below B), never changed
+    if shared is not None: p.sources.append(shared)
     for i in range(k):
         c = tid; tid += 1
         p.tasks[c] = ('R', 1 + i, 0, ('T', ('a',)))
+        if shared is not None and rng.random() < 0.7:
+            p.tasks[c] = ('R', shared, 0, p.tasks[c]) if rng.random() < 0.5 else ('R', 1 + i, 0, ('R', shared, 0, ('T', ('a',))))
         cs.append(c)
         head = c
         if rng.random() < 0.4:
             m = tid; tid += 1
-            p.tasks[m] = ('Q', c, rng.choice([0, 2]), ('T', ('a',)))
+            p.tasks[m] = ('Q', c, (0 if rng.random() < 0.85 else 2), ('T', ('a',)))
             head = m
-        body = ('Q', head, rng.choice([0, 2]), body)
+        body = ('Q', head, (0 if rng.random() < 0.85 else 2), body)
     p.tasks[1] = body
     steps = [['E', str(i), '0'] for i in range(k + 1)]
+    if shared is not None: steps.append(['E', str(shared), '3'])
     first = [['S', '1', 'q', '0'], ['S', '1', 'q', '1']]
     if rng.random() < 0.5: first.reverse()
     steps += first
